@@ -269,6 +269,9 @@ def check(ctx):
     # same design space in another process -> same on-disk cache entries: completeness of the settings cache key
     from . import c12 as _c12
     _c12.cache_keys(ctx)
+    # a pickled graph / processor describes the same object after loading: pickling hooks only drop rebuildable caches
+    from ..rules import shared as _sh18
+    _sh18.check_getstate_drops(ctx)
     edges.check_walks(ctx, categories={'copy-export'})
     ctx.floor('A8', 14, 'hash / fingerprint components')
     ctx.floor('A4', 4, 'copy / export walks')
